@@ -257,6 +257,9 @@ struct Svc {
     max_ready_checks: usize,
     /// the first inner call panics synchronously inside call()
     sync_panic_first: bool,
+    /// the limit the algorithm starts from (2, or 3: a failure then cuts the limit to below
+    /// the number of calls still running)
+    initial: usize,
 }
 
 type A = AdaptiveService<GatedInner, Aimd>;
@@ -314,7 +317,7 @@ impl Scenario for Svc {
         "C13"
     }
     fn label(&self) -> String {
-        format!("adaptive service algorithm={} callers={}{}", if self.vegas { "vegas" } else { "aimd" }, self.callers, if self.siblings { " two-services-of-one-layer" } else if self.sync_panic_first { " first-inner-call-panics-in-call()" } else { "" })
+        format!("adaptive service algorithm={} callers={}{}", if self.vegas { "vegas" } else { "aimd" }, self.callers, if self.initial != 2 { " initial-limit-3" } else if self.siblings { " two-services-of-one-layer" } else if self.sync_panic_first { " first-inner-call-panics-in-call()" } else { "" })
     }
     fn callers(&self) -> usize {
         self.callers
@@ -326,10 +329,10 @@ impl Scenario for Svc {
         let inner = GatedInner::new(w.inner.clone());
         let inner2 = GatedInner::new(w.inner.clone());
         let (svc, sibling) = if self.vegas {
-            let layer = AdaptiveLimiterLayer::new(Vegas::new(2, 1, 3, 1, 2));
+            let layer = AdaptiveLimiterLayer::new(Vegas::new(self.initial, 1, 3, 1, 2));
             (Handle::V(layer.layer(inner)), Handle::V(layer.layer(inner2)))
         } else {
-            let a = Aimd::builder().initial_limit(2).min_limit(1).max_limit(3).latency_threshold(Duration::from_millis(THRESH_MS)).build();
+            let a = Aimd::builder().initial_limit(self.initial).min_limit(1).max_limit(3).latency_threshold(Duration::from_millis(THRESH_MS)).build();
             let layer = AdaptiveLimiterLayer::new(a);
             (Handle::A(layer.layer(inner)), Handle::A(layer.layer(inner2)))
         };
@@ -491,10 +494,14 @@ impl Scenario for Svc {
 
 fn svc_configs(tier: Tier) -> Vec<Svc> {
     vec![
-        Svc { siblings: false, vegas: false, callers: tier.pick(3, 4), max_ticks: 3, max_drops: 2, max_panics: 1, max_ready_checks: tier.pick(5, 6), sync_panic_first: false },
-        Svc { siblings: false, vegas: true, callers: 3, max_ticks: 2, max_drops: 1, max_panics: 1, max_ready_checks: 4, sync_panic_first: false },
-        Svc { siblings: false, vegas: false, callers: 3, max_ticks: 1, max_drops: 1, max_panics: 0, max_ready_checks: 4, sync_panic_first: true },
-        Svc { siblings: true, vegas: false, callers: 3, max_ticks: tier.pick(1, 2), max_drops: 1, max_panics: 0, max_ready_checks: tier.pick(4, 5), sync_panic_first: false },
+        Svc { siblings: false, vegas: false, callers: tier.pick(3, 4), max_ticks: 3, max_drops: 2, max_panics: 1, max_ready_checks: tier.pick(5, 6), sync_panic_first: false, initial: 2 },
+        Svc { siblings: false, vegas: true, callers: 3, max_ticks: 2, max_drops: 1, max_panics: 1, max_ready_checks: 4, sync_panic_first: false, initial: 2 },
+        Svc { siblings: false, vegas: false, callers: 3, max_ticks: 1, max_drops: 1, max_panics: 0, max_ready_checks: 4, sync_panic_first: true, initial: 2 },
+        // three calls running at the initial limit of three; a failure halves the limit while
+        // two are still running
+        Svc { siblings: false, vegas: false, callers: 4, max_ticks: 0, max_drops: 0, max_panics: 0, max_ready_checks: 5, sync_panic_first: false, initial: 3 },
+        Svc { siblings: false, vegas: true, callers: 4, max_ticks: 0, max_drops: 0, max_panics: 0, max_ready_checks: 5, sync_panic_first: false, initial: 3 },
+        Svc { siblings: true, vegas: false, callers: 3, max_ticks: tier.pick(1, 2), max_drops: 1, max_panics: 0, max_ready_checks: tier.pick(4, 5), sync_panic_first: false, initial: 2 },
     ]
 }
 
